@@ -389,7 +389,12 @@ impl<'u> Run<'u> {
                         Ok(Err(e)) => json!({"k": "err", "e": format!("{e:?}")}),
                         Ok(Ok(tx)) => {
                             let exp = (pay.clone(), bytes);
-                            let j = self.transmit_json(&tx, Some(ti), Some(&exp));
+                            let mut j = self.transmit_json(&tx, Some(ti), Some(&exp));
+                            // does the request as transmitted carry an integrity attribute?
+                            j["wire_sealed"] = match Message::from_bytes(&tx.data) {
+                                Ok(m) => json!(m.has_attribute(MessageIntegrity::TYPE) || m.has_attribute(MessageIntegritySha256::TYPE)),
+                                Err(_) => Value::Null,
+                            };
                             self.last_tx = Some((ti, tx.data.clone()));
                             self.sent.insert(ti, exp);
                             self.cancelled.remove(&ti);
@@ -722,6 +727,38 @@ impl<'u> Run<'u> {
     }
 }
 
+fn new_run<'u>(u: &'u Universe, script: &Value, transport: TransportType, base: Instant, scale: u64, seed: u64, install: Option<(u64, u32, u64)>) -> Run<'u> {
+    let mut agent_b = StunAgent::builder(transport, u.local);
+    if let Some(r) = script.get("remote_addr").and_then(|x| x.as_str()) {
+        agent_b = agent_b.remote_addr(u.addrs[r]);
+    }
+    Run {
+        u,
+        agent: agent_b.build(),
+        transport,
+        base,
+        scale,
+        clock: 0,
+        seed,
+        req_alg: script["req_alg"].as_str().unwrap_or("sha1").to_string(),
+        resp_alg: script["resp_alg"].as_str().unwrap_or("sha1").to_string(),
+        resp_cls_toggle: 0,
+        install,
+        sent: BTreeMap::new(),
+        cancelled: BTreeSet::new(),
+        last_until_ms: None,
+        us: script["us"].as_bool().unwrap_or(false),
+        seal_ext: script["seal"].as_str() == Some("ext"),
+        other_tid_outstanding: script["other_tid"].as_str() == Some("outstanding"),
+        exchange: script["exchange"].as_bool().unwrap_or(false),
+        c2s: BTreeMap::new(),
+        s2c: BTreeMap::new(),
+        max_flight: script["max_flight"].as_u64().unwrap_or(2) as usize,
+        server_key: script["server_key"].as_str().filter(|k| *k != "none").map(|k| k.to_string()),
+        last_tx: None,
+    }
+}
+
 /// run one script; returns the events
 pub fn run_script(script: &Value) -> Vec<Value> {
     let seed = script["seed"].as_u64().unwrap_or(0);
@@ -761,35 +798,9 @@ pub fn run_script(script: &Value) -> Vec<Value> {
             }
         }
     }
-    let mut agent_b = StunAgent::builder(transport, u.local);
-    if let Some(r) = script.get("remote_addr").and_then(|x| x.as_str()) {
-        agent_b = agent_b.remote_addr(u.addrs[r]);
-    }
-    let mut run = Run {
-        u: &u,
-        agent: agent_b.build(),
-        transport,
-        base,
-        scale,
-        clock: 0,
-        seed,
-        req_alg: script["req_alg"].as_str().unwrap_or("sha1").to_string(),
-        resp_alg: script["resp_alg"].as_str().unwrap_or("sha1").to_string(),
-        resp_cls_toggle: 0,
-        install,
-        sent: BTreeMap::new(),
-        cancelled: BTreeSet::new(),
-        last_until_ms: None,
-        us: script["us"].as_bool().unwrap_or(false),
-        seal_ext: script["seal"].as_str() == Some("ext"),
-        other_tid_outstanding: script["other_tid"].as_str() == Some("outstanding"),
-        exchange: script["exchange"].as_bool().unwrap_or(false),
-        c2s: BTreeMap::new(),
-        s2c: BTreeMap::new(),
-        max_flight: script["max_flight"].as_u64().unwrap_or(2) as usize,
-        server_key: script["server_key"].as_str().filter(|k| *k != "none").map(|k| k.to_string()),
-        last_tx: None,
-    };
+    let mut run = new_run(&u, script, transport, base, scale, seed, install);
+    // the same history, call by call, in a second live agent of this process (same transaction ids, same instants)
+    let mut twin = if script["twin"].as_bool().unwrap_or(false) { Some(new_run(&u, script, transport, base, scale, seed, install)) } else { None };
     let _ = run.transport;
     let mut events = vec![];
     let mut rng = StdRng::seed_from_u64(seed ^ 0xdec0);
@@ -804,6 +815,9 @@ pub fn run_script(script: &Value) -> Vec<Value> {
                 let _ = d.poll(when + Duration::from_millis(rng.gen_range(0..100_000)));
             }
             d.set_remote_credentials(u.keys["k2"].clone());
+        }
+        if let Some(t) = twin.as_mut() {
+            let _ = t.step(s);
         }
         let mut ev = run.step(s);
         ev["obs"] = run.obs();
